@@ -38,6 +38,17 @@ type Srv struct {
 
 	mu  sync.Mutex
 	who map[string]Who // RemoteAddr -> identity
+	any *Who           // if set, the identity of every address not in who
+}
+
+// NewAnyAddr is like New but answers WhoIs for every source address with w
+// (for servers reached over real loopback sockets, where the port is not known).
+func NewAnyAddr(d *db.DB, w Who) (*Srv, error) {
+	s, err := New(d)
+	if err == nil {
+		s.any = &w
+	}
+	return s, err
 }
 
 func New(d *db.DB) (*Srv, error) {
@@ -60,6 +71,9 @@ func (s *Srv) whois(ctx context.Context, addr string) (*apitype.WhoIsResponse, e
 	s.mu.Lock()
 	w, ok := s.who[addr]
 	s.mu.Unlock()
+	if !ok && s.any != nil {
+		w, ok = *s.any, true
+	}
 	if !ok {
 		return nil, fmt.Errorf("no such peer %q", addr)
 	}
